@@ -122,10 +122,14 @@ class AsyncioTransportStreamSocketAdapter(AsyncStreamTransport):
     async def send_all_from_iterable(self, iterable_of_data: Iterable[bytes | bytearray | memoryview]) -> None:
         # Empty buffers must be skipped: on some Python versions, a trailing empty buffer is never removed from
         # the transport's write buffer, the event loop then spins on the write event and the transport never closes.
-        self.__transport.writelines([data for data in iterable_of_data if len(data)])
-        # On some Python versions, writelines() does not notify the protocol when data remains in the write buffer.
-        # Re-applying the limits calls pause_writing() if needed.
-        self.__transport.set_write_buffer_limits(0)
+        list_of_data = [data for data in iterable_of_data if len(data)]
+        # On some Python versions, writelines() raises AttributeError once the connection is lost (where write() ignores the data).
+        # In both cases, writer_drain() reports the connection error.
+        if not self.__transport.is_closing():
+            self.__transport.writelines(list_of_data)
+            # On some Python versions, writelines() does not notify the protocol when data remains in the write buffer.
+            # Re-applying the limits calls pause_writing() if needed.
+            self.__transport.set_write_buffer_limits(0)
         await self.__protocol.writer_drain()
 
     async def send_eof(self) -> None:
